@@ -835,6 +835,19 @@ func nmeaSentence(text string) []byte {
 	return []byte(fmt.Sprintf("$%s*%02X\r\n", body, cs))
 }
 
+// ntripRequest is what an NTRIP client or server sends first: a request line and
+// headers, among them its credentials.
+func ntripRequest(r *ref.SplitMix64) []byte {
+	cred := []string{"dXNlcjpzZWNyZXQ=", "Ym9iOmh1bnRlcjI=", "YTpi", "c3RhdGlvbjAwMTpwYXNzd29yZC13aXRoLWEtbG9uZy10YWls"}[r.Intn(4)]
+	switch r.Intn(3) {
+	case 0:
+		return []byte("GET /MOUNT1 HTTP/1.1\r\nHost: caster.example:2101\r\nNtrip-Version: Ntrip/2.0\r\nUser-Agent: NTRIP go-ntrip/1.0\r\nAuthorization: Basic " + cred + "\r\nConnection: close\r\n\r\n")
+	case 1:
+		return []byte("POST /BASE7 HTTP/1.1\r\nHost: caster.example:2101\r\nAuthorization: Basic " + cred + "\r\nNtrip-Version: Ntrip/2.0\r\nTransfer-Encoding: chunked\r\n\r\n")
+	}
+	return []byte("SOURCE " + cred + " /BASE7\r\nSource-Agent: NTRIP test\r\nAuthorization: Basic " + cred + "\r\n\r\n")
+}
+
 func proxyStream(r *ref.SplitMix64, size int) []byte {
 	var b []byte
 	for len(b) < size {
@@ -849,6 +862,8 @@ func proxyStream(r *ref.SplitMix64, size int) []byte {
 			b = append(b, ref.Frame(shapedPayload(r, t, r.Range(1, 60), r.Intn(6)))...)
 		case 4:
 			b = append(b, r.Bytes(r.Range(1, 400))...)
+		case 5:
+			b = append(b, ntripRequest(r)...)
 		default:
 			b = append(b, gen.CleanStream(r, gen.CleanOpts{MinFrames: 1, MaxFrames: 6}).Bytes()...)
 		}
@@ -1082,7 +1097,25 @@ func execC19Stall(c *child.Ctx, k proxyCase, cj []byte) {
 		sleepTicking(100 * time.Millisecond)
 	}
 	queued := lastQ
+	// the operator looks at the status page while the upload is held up
+	stopPoll := make(chan struct{})
+	pollDone := make(chan struct{})
+	go func() {
+		defer close(pollDone)
+		for {
+			select {
+			case <-stopPoll:
+				return
+			case <-time.After(150 * time.Millisecond):
+			}
+			if _, err := p.report(); err == nil {
+				c.Count("reports_fetched_while_the_upload_was_held_up", 1)
+			}
+		}
+	}()
 	sleepTicking(time.Duration(k.StallMs) * time.Millisecond)
+	close(stopPoll)
+	<-pollDone
 	heldBack := int64(len(data)) - int64(nfirst) - queued
 	got = append(got, readN(up, len(data)-nfirst, 30*time.Second, sent)...)
 	if !p.alive() {
@@ -1098,6 +1131,127 @@ func execC19Stall(c *child.Ctx, k proxyCase, cj []byte) {
 	if heldBack > 0 {
 		c.Count("upstream_stall_sessions_with_the_upload_held_up", 1)
 	}
+}
+
+// execC19Bulk: a client uploads megabytes of small frames as fast as it can while the
+// status page is read again and again: the upstream gets every byte, and every
+// report lists a contiguous run of the messages that were relayed.
+func execC19Bulk(c *child.Ctx, k proxyCase, cj []byte) {
+	p, err := startProxy(c, k.ID)
+	if err != nil {
+		if p != nil {
+			p.stop()
+		}
+		c.Inconclusive("proxy could not be started: " + err.Error())
+		return
+	}
+	defer p.stop()
+	r := ref.NewRand(k.Seed)
+	var data []byte
+	for len(data) < k.StallBytes {
+		var f gen.Seg
+		for {
+			f = gen.RandFrame(r)
+			if len(f.Bytes) <= 40 {
+				break
+			}
+		}
+		data = append(data, f.Bytes...)
+	}
+	baseline := runSequential(fixedStart, slog.LevelInfo, data)
+	conn, err := net.DialTimeout("tcp", fmt.Sprintf("127.0.0.1:%d", p.proxyPort), 5*time.Second)
+	if err != nil {
+		c.Inconclusive("cannot connect to the proxy: " + err.Error())
+		return
+	}
+	defer conn.Close()
+	up, err := acceptWithin(p.upstream, 20*time.Second)
+	if err != nil {
+		c.Inconclusive("the proxy did not connect upstream: " + err.Error())
+		return
+	}
+	defer up.Close()
+	sent := make(chan struct{})
+	go func() {
+		writeChunks(conn, data, 16384, 0, ref.NewRand(k.Seed+1))
+		close(sent)
+	}()
+	var got []byte
+	gotDone := make(chan struct{})
+	go func() { got = readN(up, len(data), 30*time.Second, sent); close(gotDone) }()
+	var reports []string
+	polling := true
+	for polling {
+		select {
+		case <-gotDone:
+			polling = false
+		default:
+		}
+		if b, err := p.report(); err == nil && len(reports) < 400 {
+			reports = append(reports, b)
+		}
+		time.Sleep(5 * time.Millisecond)
+		tick()
+	}
+	if !p.alive() {
+		c.Violate("proxy-died", "the proxy process ended during a bulk upload: "+p.stderrTail(), cj)
+		return
+	}
+	if !bytes.Equal(got, data) {
+		c.Violate("client-to-server-differs", fmt.Sprintf("bulk upload of %d bytes: the upstream server received %d bytes: %s", len(data), len(got), firstDiff(got, data)), cj)
+		return
+	}
+	for _, body := range reports {
+		listed, problem, _ := checkReport(body)
+		if problem != "" {
+			c.Violate("report-not-escaped", "during a bulk upload: "+problem, cj)
+			return
+		}
+		if why := listedAreRelayedFast(listed, baseline, data); why != "" {
+			c.Violate("report-lists-unrelayed-message", "during a bulk upload of "+fmt.Sprint(len(data))+" bytes of small frames: "+why, cj)
+			return
+		}
+		c.Count("reports_checked", 1)
+	}
+	c.Count("bulk_uploads", 1)
+	c.Count("reports_fetched_during_bulk_upload", int64(len(reports)))
+}
+
+// listedAreRelayedFast: as listedAreRelayed for a long baseline - the listed messages,
+// concatenated, must occur in the relayed bytes at a message boundary sequence.
+func listedAreRelayedFast(listed [][]byte, baseline []handler.Message, data []byte) string {
+	if len(listed) == 0 {
+		return ""
+	}
+	if len(listed) > 20 {
+		return fmt.Sprintf("the report lists %d messages, more than the 20 it keeps", len(listed))
+	}
+	var cat []byte
+	for _, l := range listed {
+		cat = append(cat, l...)
+	}
+	at := bytes.Index(data, cat)
+	if at < 0 {
+		return fmt.Sprintf("the report lists %d messages whose bytes, taken together, occur nowhere in the relayed stream (first listed: %s)", len(listed), clip(hexs(listed[0])))
+	}
+	// and the individual messages are the ones the framing delivers there
+	off := 0
+	for i := range baseline {
+		if off == at {
+			for j := range listed {
+				if i+j >= len(baseline) || !bytes.Equal(baseline[i+j].RawData, listed[j]) {
+					return fmt.Sprintf("the report lists %d messages that are not a run of the relayed messages (listed message %d: %s)", len(listed), j, clip(hexs(listed[j])))
+				}
+			}
+			return ""
+		}
+		if off > at {
+			break
+		}
+		off += len(baseline[i].RawData)
+	}
+	// the same byte string may occur earlier by coincidence: fall back to the full search
+	return listedAreRelayed(listed, baseline)
 }
 
 // sendQueueTowards returns the number of bytes queued in the kernel on the local
@@ -1128,6 +1282,8 @@ func monC19(c *child.Ctx, replay json.RawMessage) {
 		c.Begin(replay)
 		if k.Kind == "stall" {
 			execC19Stall(c, k, replay)
+		} else if k.Kind == "bulk" {
+			execC19Bulk(c, k, replay)
 		} else if k.Kind == "status" {
 			execC19Status(c, k, replay)
 		} else if k.Kind == "concurrent" {
@@ -1172,6 +1328,12 @@ func monC19(c *child.Ctx, replay json.RawMessage) {
 		k := proxyCase{ID: c.Batch*10000 + 9500, Kind: "stall", Seed: r.Uint64() >> 1, StallMs: int(timedStalls(c)[sb].Milliseconds())*10 + 500, StallBytes: 6000000}
 		cj := c.BeginV(k)
 		execC19Stall(c, k, cj)
+		c.Eval(ref.Hash64(cj), true)
+	}
+	if c.Batch == 1 || c.Thorough() && c.Batch%8 == 1 {
+		k := proxyCase{ID: c.Batch*10000 + 9600, Kind: "bulk", Seed: r.Uint64() >> 1, StallBytes: 2000000}
+		cj := c.BeginV(k)
+		execC19Bulk(c, k, cj)
 		c.Eval(ref.Hash64(cj), true)
 	}
 	ns := c.Share(c.Pick(40, 1500))
